@@ -8,7 +8,7 @@ still queued. `continue` is the accepted idiom for such elements. `goto`/`return
 from vfacts import strip, walk, method_name, enclosing, is_node
 
 RULE = 'DRAIN'
-FLOOR = 15
+FLOOR = 10
 LOOPS = ('ForStmt', 'WhileStmt', 'CXXForRangeStmt', 'DoStmt', 'SwitchStmt')
 
 
